@@ -65,6 +65,9 @@ func (f *Func) canon(e ast.Expr, depth int) string {
 			if rx := f.rangeSource(ov); rx != nil && depth < 5 {
 				return "$elem(" + f.canon(rx, depth+1) + ")"
 			}
+			if rx := f.rangeKeySource(ov); rx != nil && depth < 5 {
+				return "$key(" + f.canon(rx, depth+1) + ")"
+			}
 			return "$v:" + normType(ov.Type())
 		case *types.Const:
 			if ov.Pkg() != nil {
@@ -160,6 +163,27 @@ func (f *Func) rangeSource(v *types.Var) ast.Expr {
 		})
 	}
 	return root.rangeCache[v]
+}
+
+// rangeKeySource returns the ranged expression of which v is the key
+// variable (`for v := range X` / `for v, _ := range X`).
+func (f *Func) rangeKeySource(v *types.Var) ast.Expr {
+	root := f.Root()
+	if root.rangeKeyCache == nil {
+		root.rangeKeyCache = map[types.Object]ast.Expr{}
+		info := root.Info()
+		ast.Inspect(root.Body, func(n ast.Node) bool {
+			if rs, ok := n.(*ast.RangeStmt); ok && rs.Tok == token.DEFINE {
+				if id, ok := rs.Key.(*ast.Ident); ok {
+					if o := info.Defs[id]; o != nil {
+						root.rangeKeyCache[o] = rs.X
+					}
+				}
+			}
+			return true
+		})
+	}
+	return root.rangeKeyCache[v]
 }
 
 var identRe = regexp.MustCompile(`[$A-Za-z_][A-Za-z0-9_]*`)
